@@ -43,7 +43,20 @@ def run(chk: Check) -> None:
     rets = [n for n in ast.walk(bsk.node) if isinstance(n, ast.Return)]
     if len(rets) != 1 or not isinstance(rets[0].value, ast.Tuple):
         raise AnalysisError("build_subtype_kind no longer returns a tuple literal")
-    comps = [norm(e) for e in rets[0].value.elts]
+    comps = []
+    for e in rets[0].value.elts:
+        if isinstance(e, ast.Starred):
+            # `*subtype_context.helper()`: a SubtypeContext method returning a tuple literal of its own flags
+            c = e.value
+            hm = ctx.methods.get(c.func.attr) if isinstance(c, ast.Call) and isinstance(c.func, ast.Attribute) and norm(c.func.value) == "subtype_context" else None
+            hrets = [n for n in ast.walk(hm.node) if isinstance(n, ast.Return)] if hm else []
+            if len(hrets) != 1 or not isinstance(hrets[0].value, ast.Tuple):
+                raise AnalysisError(f"build_subtype_kind: cannot expand `{norm(e)}` into key components")
+            for x in hrets[0].value.elts:
+                t = norm(x)
+                comps.append("subtype_context." + t[5:] if t.startswith("self.") else t)
+        else:
+            comps.append(norm(e))
     for fl in flags:
         key = f"SubtypeContext.{fl} is a key component"
         if fl == "options":
@@ -67,7 +80,7 @@ def run(chk: Check) -> None:
         for n in ast.walk(f.node):
             if isinstance(n, ast.Attribute) and isinstance(n.ctx, ast.Load):
                 b = norm(n.value)
-                if b in ("self.subtype_context", "subtype_context") and n.attr != "check_context":
+                if b in ("self.subtype_context", "subtype_context") and n.attr not in ctx.methods:
                     read_ctx.setdefault(n.attr, f"{f.module.relpath}:{n.lineno} {q}")
                 elif b == "state":
                     read_state.setdefault(n.attr, f"{f.module.relpath}:{n.lineno} {q}")
